@@ -133,7 +133,7 @@ PROPS = {
     "C11": {"ready": True, "replay": mc_checks.replay, "partial": PARTIAL_D1,
             "suites": [mc("mc_cache_modes", dict(record=0.2, identical_msgs=0.5, depth=(2, 4)),
                           cross=[("dfs", "full"), ("dfs", "partial"), ("dfs", "disabled"), ("bfs", "full"), ("bfs", "disabled")],
-                          n_quick=200)]},
+                          n_quick=200, extra_gen=mc_checks.gen_crash_merge)]},
     "C12": {"ready": True, "replay": mc_checks.replay,
             "suites": [mc("mc_fates", dict(p_fault=0.7, p_link=0.5, p_send=0.6, p_timer=0.1, nodes=(2, 3), procs=(2, 3), depth=(2, 4)),
                           refenum=True, nontrivial=lambda st: st["faults"] and st["multi_states"])]},
@@ -145,7 +145,7 @@ PROPS = {
             "suites": [mc("mc_crash", dict(p_crash=1.0, nodes=(2, 3), procs=(2, 4), p_link=0.4, staged=0.5), refenum=True,
                           nontrivial=lambda st: st["crash"] and st["multi_states"])]},
     "C16": {"ready": True, "replay": mc_checks.replay,
-            "partial": "theorems cover what one stage returns (collected set, status counts); union over start states and rollback of run_from_states are carried by the correspondence runs only",
+            "partial": "the union over start states is a theorem for the Disabled cache only (runFromStates_disabled_concat); with a shared cache it is carried by the correspondence runs",
             "suites": [mc("mc_staged", dict(staged=1.0, depth=(2, 4)), nontrivial=lambda st: st["staged"] and st["multi_states"])]},
     "C20": {
         "ready": True,
